@@ -13,6 +13,11 @@ allocation orders sort identically.
 Stateful sequences: build, sort, edit the SAME objects (replace_input_with / resize_inputs, inserts into
 nested graphs, moving a node to another place or graph), sort again ...; every sort is compared with the
 model applied to the structure of that moment and followed by the oracle (no hidden state between sorts).
+Stateful model (`sort.state`): every public call on a node container (DoublyLinkedSet) made while the objects are
+built, edited and sorted is traced and the whole history replayed on `sortW` over C11's pointer-level containers;
+per sort: outcome, write trace (which container got which `extend`, in the code's order) and every container's
+sequence.  Identity-keyed transcription `sortIds` (universe may list a node twice) compared on every case.
+Shared Graph objects (also at nesting depth >= 2) and graphs nested in themselves are generated deliberately.
 """
 from __future__ import annotations
 
@@ -42,22 +47,48 @@ THEOREMS = [
     "IrVerif.Sort.C12_fixpoint_graph",
     "IrVerif.Sort.C12_fixpoint",
     "IrVerif.Sort.C12_deterministic",
+    "IrVerif.Sort.C12_effect_equivariant",
+    "IrVerif.Sort.C12_state_raise_no_write",
+    "IrVerif.Sort.C12_state_sort",
+    "IrVerif.Sort.C12_state_abs_only",
+    "IrVerif.Sort.C12_self_nested_recursion",
+    "IrVerif.Sort.C12_shared_raises",
+    "IrVerif.Sort.C12_state_deterministic",
+    "IrVerif.Sort.C12_ids_refines",
+    "IrVerif.Sort.C12_ids_shared_raises",
+    "IrVerif.Sort.C12_ids_equivariant",
 ]
 ASSUMPTIONS = [
     "Function.sort is `self._graph.sort()`: it is modelled as the same sortEffect on the function's graph; "
     "TopologicalSortPass.call is modelled by passEffect (record the orders, sort main graph then functions, on "
     "ValueError re-extend every recorded graph in its recorded order and re-raise: the code since fix D201, 1715aa4); "
     "the correspondence requires the atomic state, a partially sorted model is a disagreement and an oracle failure",
-    "not theorems, by construction of the model: 'the result depends only on the current tree' (the model is a function "
-    "of it; the stateful build/sort/edit/sort correspondence is what checks the code for hidden state)",
-    "heapq on (negative position, node) pairs with distinct positions is modelled as extract-maximum-position; "
-    "dict insertion order and dict/set lookups by object identity are modelled by creation indices",
+    "'the result depends only on the current tree' is a theorem about the stateful model sortW (C12_state_abs_only: equal "
+    "abstraction => equal outcome/trace/abstraction; C12_state_deterministic: also up to relabelling of identities); what ties "
+    "sortW to the code is the replay of every traced history (construction, edits, sorts: each public DoublyLinkedSet call on "
+    "the real objects) on C11's pointer-level containers: outcome, write trace and every container's sequence per sort. The "
+    "hypotheses of C12_state_sort are evaluated per sort and published (state_hyp_* in the distribution). The pass entry "
+    "points are not replayed on the stateful model (passEffect covers them). Not modelled in sortW: the name authority and "
+    "_check_node_can_be_added (fix D89: all checks of all graphs precede the first write; its raise is not an outcome of sortW), "
+    "node.graph (assumed = the graph whose container lists the node, C01)",
+    "heapq on (negative position, node) pairs is modelled as extract-maximum-position; that no two queue entries ever carry "
+    "the same position (so heapq never compares two Node objects) follows from C12_ids_shared_raises / C12_ids_refines "
+    "(no node is queued twice). The dicts keyed by node are modelled twice: by position (sortModel, all correctness theorems) "
+    "and by identity with a universe that may repeat a node (sortIds, the line-by-line transcription); C12_ids_refines proves "
+    "them equal on well-formed trees, both are compared with the real sort on every case; dict insertion order is not used by "
+    "steps 1-4, the iteration order of sorted_nodes_by_graph (from a set) is a parameter (`order`) every theorem quantifies over",
     "the object graph is a tree: every Graph object is the value of at most one attribute and node.graph is the "
     "graph whose node list contains the node (ownership consistency is property C01's subject); a Graph object "
-    "shared by two attributes is modelled by a derived branch of sortModel (the sort raises; NOT a theorem: a summary "
-    "derived in the model's doc comment, differential only) "
-    "and excluded from all other theorems by hypothesis WF (distinct node ids / graph ids, asserted on every unshared "
-    "case); a graph nested in itself makes RecursiveGraphIterator recurse forever and cannot be encoded",
+    "shared by two attributes: the sort raises ValueError and nothing is re-linked - derived line by line from the "
+    "identity-keyed transcription (C12_ids_shared_raises, hypothesis: the sorted graph's own nodes are listed once, evaluated "
+    "per case as ids_hyp_root_nodes_listed_once) and stated for the pure and the stateful model (C12_shared_raises); shared "
+    "graphs are excluded from the theorems about successful sorts by hypothesis WF (distinct node ids / graph ids, asserted "
+    "on every unshared case); a graph nested in itself: RecursiveGraphIterator raises RecursionError (depth ~330 of nested "
+    "generators), nothing is written - modelled by the depth bound of unfoldG (C12_self_nested_recursion: no bound suffices) "
+    "and checked on generated self-nested graphs (terminates within the time limit, no order changes, outcome compared with "
+    "sortW); the property's quantifier (graphs nested to any finite depth) does not cover it and RecursionError instead of "
+    "ValueError is not claimed as a defect. The model's depth bound is #containers+1, Python's is the interpreter's recursion "
+    "limit: a legitimate nest deeper than ~330 levels would raise RecursionError in the code only (outside the generators' reach)",
     "a value is represented by what Graph.sort reads from it: input_value.producer()",
     "C12_fixpoint* (stability: 'a graph already in order is left as it was') assume well-scoped graphs (a value is "
     "used only inside the graph of its producer or graphs nested in it), as in the property's quantifier ('subgraphs "
@@ -319,12 +350,26 @@ def gen_case(rng, quick=True):
     how = rng.choice(["id", "rev", "shuffle", "shuffle", "swap", "mixed", "mixed"])
     permute(rng, root, how)
     shared = False
-    if rng.random() < 0.05:
-        # one Graph object as the value of two attributes (of the same node or of two nodes)
-        owners = [(n, a) for n in walk_nodes(root) for a in n["attrs"] if a[0] in ("g", "gs") and (a[0] == "g" or a[1])]
-        if owners:
-            n0, a0 = rng.choice(owners)
-            gshare = a0[1] if a0[0] == "g" else rng.choice(a0[1])
+    shared_depth = 0
+    if rng.random() < 0.07:
+        # one Graph object as the value of two attributes (of the same node or of two nodes); preferably a graph
+        # at nesting depth >= 2, so that the duplicated part of the universe sits below other subgraphs
+        depths = {}
+
+        def rec(g, d):
+            depths[g["g"]] = d
+            for n in g["nodes"]:
+                for a in n["attrs"]:
+                    for sg in [a[1]] if a[0] == "g" else (a[1] if a[0] == "gs" else []):
+                        rec(sg, d + 1)
+
+        rec(root, 0)
+        cands = [sg for n in walk_nodes(root) for a in n["attrs"] if a[0] in ("g", "gs") for sg in ([a[1]] if a[0] == "g" else a[1])]
+        deep = [sg for sg in cands if depths[sg["g"]] >= 2]
+        if deep and rng.random() < 0.7:
+            cands = deep
+        if cands:
+            gshare = rng.choice(cands)
             inside = {id(x) for x in walk_nodes(gshare)}
             targets = [n for n in walk_nodes(root) if id(n) not in inside]
             t = rng.choice(targets)
@@ -333,12 +378,180 @@ def gen_case(rng, quick=True):
             else:
                 t["attrs"].append(["gs", [gshare] if rng.random() < 0.5 else [gshare, gshare]])
             shared = True
+            shared_depth = depths[gshare["g"]]
     entry = rng.choice(["graph", "graph", "graph", "function", "pass", "subgraph"])
     variant = rng.randrange(4)
     steps = []
     if not shared and rng.random() < 0.4:  # stateful: sort, edit the same objects, sort again ...
         steps = [rng.randrange(1 << 30) for _ in range(rng.choice([1, 2, 2, 3, 4]))]
-    return {"spec": root, "mode": mode, "perm": how, "entry": entry, "variant": variant, "sub": rng.randrange(1 << 30), "shared": shared, "steps": steps}
+    return {"spec": root, "mode": mode, "perm": how, "entry": entry, "variant": variant, "sub": rng.randrange(1 << 30), "shared": shared,
+            "shared_depth": shared_depth, "steps": steps}
+
+
+def gen_selfnest_case(rng):
+    """a graph nested in itself: some node of the tree gets, as a graph attribute, its own graph or a graph
+    enclosing it (outside the property's quantifier; the check is that the sort terminates and changes nothing)"""
+    sg = SpecGen(rng, rng.choice([0, 1, 2, 2, 3]), rng.choice([2, 3, 4]), 0.6, "dag")
+    root = sg.graph(0, [])
+    how = rng.choice(["id", "rev", "shuffle"])
+    permute(rng, root, how)
+    gof, owner, nodes = scope_tables(root)
+    n = rng.choice(sorted(nodes))
+    chain, g = [], gof[n]
+    while g is not None:
+        chain.append(g)
+        o = owner[g]
+        g = gof[o] if o is not None else None
+    return {"spec": root, "mode": "selfnest", "perm": how, "entry": rng.choice(["graph", "graph", "function"]), "variant": rng.randrange(4),
+            "sub": rng.randrange(1 << 30), "shared": False, "steps": [],
+            "selfnest": {"node": n, "graph": rng.choice(chain), "kind": rng.choice(["g", "gs"]), "hops": len(chain)}}
+
+
+# --------------------------------------------------------------------------- container tracer (stateful model)
+
+
+class Tracer:
+    """Records every outermost public call on a `DoublyLinkedSet` (the node containers of the graphs) made while
+    it is the current tracer: outside a sort as an event of the world's history, inside a sort as an entry of the
+    write trace of that sort.  The history is replayed on the stateful Lean model (`sort.state`: C11's pointer-level
+    containers, `sortW`), which must reproduce outcome, write trace and every container's sequence."""
+
+    cur = None
+
+    def __init__(self, b):
+        self.b = b
+        self.widx = {}  # id(container) -> world index
+        self.conts = []  # keeps the containers alive (ids are not reused)
+        self.events = []
+        self.obs = []
+        self.in_sort = False
+        self.trace = []
+        self.depth = 0
+        self.bad = None  # why this history cannot be replayed on the model
+
+    def index_of(self, cont):
+        k = self.widx.get(id(cont))
+        if k is None:
+            k = self.widx[id(cont)] = len(self.conts)
+            self.conts.append(cont)
+            self.events.append({"e": "new"})
+        return k
+
+    def nid(self, node):
+        i = self.b.nid.get(id(node))
+        if i is None:
+            self.bad = "a node unknown to the harness entered a container"
+            return 0
+        return i
+
+    def record(self, cont, code, args, ok):
+        k = self.index_of(cont)
+        if not ok:
+            self.bad = f"container call {code} raised"
+            return
+        if code == "append":
+            ev = {"e": "op", "g": k, "o": "append", "v": self.nid(args[0])}
+        elif code == "extend":
+            ev = {"e": "op", "g": k, "o": "extend", "vs": [self.nid(n) for n in args[0]]}
+        elif code in ("ia", "ib"):
+            ev = {"e": "op", "g": k, "o": code, "a": self.nid(args[0]), "vs": [self.nid(n) for n in args[1]]}
+        else:
+            ev = {"e": "op", "g": k, "o": "rm", "v": self.nid(args[0])}
+        if self.in_sort:
+            self.trace.append([k, ev["vs"]] if code == "extend" else [k, [code, ev]])
+        else:
+            self.events.append(ev)
+
+
+_PATCHED = False
+
+
+def _patch_containers():
+    """wrap the five public editing methods of DoublyLinkedSet (class level, once per process); the wrappers do
+    nothing unless a Tracer is current"""
+    global _PATCHED
+    if _PATCHED:
+        return
+    _PATCHED = True
+    from onnx_ir import _linked_list
+
+    cls = _linked_list.DoublyLinkedSet
+    for name, code in (("append", "append"), ("extend", "extend"), ("insert_after", "ia"), ("insert_before", "ib"), ("remove", "rm")):
+        orig = getattr(cls, name)
+
+        def wrap(self, *a, _orig=orig, _code=code):
+            t = Tracer.cur
+            if t is None:
+                return _orig(self, *a)
+            if t.depth:
+                t.depth += 1
+                try:
+                    return _orig(self, *a)
+                finally:
+                    t.depth -= 1
+            if _code == "extend":
+                a = (list(a[0]),)
+            elif _code in ("ia", "ib"):
+                a = (a[0], list(a[1]))
+            t.depth = 1
+            ok = False
+            try:
+                r = _orig(self, *a)
+                ok = True
+                return r
+            finally:
+                t.depth = 0
+                t.record(self, _code, a, ok)
+
+        wrap.__name__ = name
+        setattr(cls, name, wrap)
+
+
+def world_tables(b):
+    """input producers and graph-valued attributes of every node the harness knows, read off the real objects
+    (no recursion: a graph nested in itself is fine here)"""
+    ir = b.ir
+    t = Tracer.cur
+    ins, attrs = [], []
+    for nid_, node in sorted(b.node.items()):
+        ps = []
+        for v in node.inputs:
+            p = None if v is None else v.producer()
+            ps.append(None if p is None else t.nid(p))
+        ins.append([nid_, ps])
+        al = []
+        for attr in node.attributes.values():
+            if not isinstance(attr, ir.Attr) or attr.is_ref() or attr.value is None:
+                continue
+            if attr.type == ir.AttributeType.GRAPH:
+                al.append({"g": t.index_of(attr.value._nodes)})
+            elif attr.type == ir.AttributeType.GRAPHS:
+                al.append({"gs": [t.index_of(g._nodes) for g in attr.value]})
+        if al:
+            attrs.append([nid_, al])
+    return {"e": "tables", "ins": ins, "attrs": attrs}
+
+
+def traced_sort(b, case, root):
+    """run the real sort; when a tracer is current, log the tables + the sort as events of the history and
+    record what the real objects show: outcome, write trace, every container's sequence"""
+    t = Tracer.cur
+    if t is None:
+        return run_real(b, case, root)
+    t.events.append(world_tables(b))
+    k = t.index_of(root._nodes)
+    t.in_sort, t.trace = True, []
+    try:
+        roots, outcome = run_real(b, case, root)
+    finally:
+        t.in_sort = False
+    trace = t.trace
+    wellformed = all(not (isinstance(x[1], list) and x[1] and isinstance(x[1][0], str)) for x in trace)
+    order = [x[0] for x in trace]
+    t.events.append({"e": "sort", "g": k, "order": order if (outcome == "ok" and wellformed and len(set(order)) == len(order)) else None})
+    out = {"ok": "ok", "raised": "valueError", "raised:RecursionError": "recursionError"}.get(outcome, outcome)
+    t.obs.append({"out": out, "trace": trace, "after": [[t.nid(n) for n in c] for c in t.conts]})
+    return roots, outcome
 
 
 # --------------------------------------------------------------------------- real objects
@@ -358,6 +571,8 @@ class Built:
         self.ir = ir
         self.ref_mismatch = False
         self.nid = {}  # id(node obj) -> spec id
+        if Tracer.cur is not None and Tracer.cur.b is None:
+            Tracer.cur.b = self  # container calls made while the objects are built belong to this history
         self.gidmap = {}  # id(graph obj) -> gid
         self.node = {}  # spec id -> node obj
         self.graph = {}  # gid -> graph obj
@@ -790,24 +1005,62 @@ def tree_graphs_of_node(b: Built, node):
 def do_case(case, part):
     """build the real objects, then sort; for a stateful case keep editing the same objects and sorting again.
     Every sort is compared with the model applied to the structure as it is at that moment, and followed by
-    the property oracle.  Returns one record per sort (None when the case ended early)."""
+    the property oracle.  Returns one record per sort (None when the case ended early).
+    Except for the pass entry points, every container call of the whole history (construction, edits, sorts) is
+    traced and replayed afterwards on the stateful model (`state` of the first record)."""
     if case["entry"] == "model":
         return do_model_case(case, part)
-    b = Built(case["spec"], case["variant"], seed=case["sub"])
-    root = pick_root(b, case)
-    recs = []
-    r = sort_step(b, case, root, part, 0, [])
-    if r is None:
-        return None
-    recs.append(r)
-    edits = []
-    for k, seed in enumerate(case.get("steps") or [], start=1):
-        edits.append(apply_edit(b, seed))
-        r = sort_step(b, case, root, part, k, list(edits))
+    _patch_containers()
+    t = Tracer(None) if case["entry"] != "pass" else None
+    Tracer.cur = t
+    try:
+        if case.get("selfnest"):
+            return do_selfnest_case(case, part, t)
+        b = Built(case["spec"], case["variant"], seed=case["sub"])
+        root = pick_root(b, case)
+        recs = []
+        r = sort_step(b, case, root, part, 0, [])
         if r is None:
-            break
+            return None
         recs.append(r)
+        edits = []
+        for k, seed in enumerate(case.get("steps") or [], start=1):
+            edits.append(apply_edit(b, seed))
+            r = sort_step(b, case, root, part, k, list(edits))
+            if r is None:
+                break
+            recs.append(r)
+    finally:
+        Tracer.cur = None
+    if t is not None:
+        recs[0]["state"] = {"req": {"m": "sort.state", "events": t.events}, "obs": t.obs, "bad": t.bad}
     return {"recs": recs, "outcome": [x["outcome"] for x in recs], "after": [x["after"] for x in recs]}
+
+
+def do_selfnest_case(case, part, t):
+    """a graph nested in itself (see gen_selfnest_case): the real sort must return or raise within the time limit
+    (the caller's time_limit reports a hang) and must leave every graph's order as it was; the stateful model
+    (`C12_self_nested_recursion`) says RecursionError, no write."""
+    b = Built(case["spec"], case["variant"], seed=case["sub"])
+    sn = case["selfnest"]
+    ir = b.ir
+    g = b.graph[sn["graph"]]
+    b.node[sn["node"]].attributes.add(ir.AttrGraph("self_g", g) if sn["kind"] == "g" else ir.AttrGraphs("self_g", [g]))
+    before = b.orders()
+    _roots, outcome = traced_sort(b, case, b.root)
+    after = b.orders()
+    part.case(
+        {"spec": case["spec"], "entry": case["entry"], "selfnest": sn},
+        nontrivial=True,
+        sample={"selfnest": sn, "entry": case["entry"], "outcome": outcome},
+        mode="selfnest", entry=case["entry"], selfnest_outcome=outcome, selfnest_hops=min(sn.get("hops", 1), 4),
+    )
+    sig_entry = {"graph": "Graph.sort", "function": "Function.sort"}[case["entry"]]
+    if after != before:
+        part.fail(f"{sig_entry}:self-nested:changed", "sort of a graph nested in itself changed some graph's order", {"case": case})
+    rec = {"kind": "selfnest", "case": case, "outcome": outcome, "after": {str(k): v for k, v in after.items()},
+           "state": {"req": {"m": "sort.state", "events": t.events}, "obs": t.obs, "bad": t.bad}}
+    return {"recs": [rec], "outcome": [outcome], "after": [rec["after"]]}
 
 
 def sort_step(b: Built, case, root, part, step, edits):
@@ -845,7 +1098,7 @@ def sort_step(b: Built, case, root, part, step, edits):
     dupnodes = len({x[0] for x in pre_universe}) != len(pre_universe)  # a shared Graph object with nodes
     if (dupnodes or len(set(tree)) != len(tree)) and not case.get("shared"):
         part.disagree("encoding not well formed (duplicate node or graph id): hypothesis WF of the theorems", {"case": case})
-    _roots, outcome = run_real(b, case, root)
+    _roots, outcome = traced_sort(b, case, root)
     after = b.orders()
     canon = {"spec": spec, "entry": entry, "sub": case["sub"] if entry == "subgraph" else 0,
              "steps": (case.get("steps") or [])[:step]}
@@ -862,6 +1115,7 @@ def sort_step(b: Built, case, root, part, step, edits):
         wellscoped=ws,
         preordered=all(pre_ordered.values()),
         shared_graph=("nodes-twice" if dupnodes else ("empty" if len(set(tree)) != len(tree) else "no")),
+        shared_depth=(min(case.get("shared_depth", 0), 3) if case.get("shared") else "n/a"),
         fixpoint_clause=("checked" if ws and outcome == "ok" and any(pre_ordered.values()) else "n/a"),
         step=step,
         capture_after_owner=min(capture_after_owner, 3),
@@ -918,7 +1172,7 @@ def sort_step(b: Built, case, root, part, step, edits):
                     part.fail(f"{sig_entry}:ordered-graph-changed", f"graph {gid} was already ordered but changed", rec)
                     break
         # sorting again changes nothing (the result is in order)
-        _r2, outcome2 = run_real(b, case, root)
+        _r2, outcome2 = traced_sort(b, case, root)
         if outcome2 != "ok" or (ws and b.orders() != after):
             part.fail(f"{sig_entry}:not-idempotent", "second sort changed the order or raised", rec)
     return {
@@ -931,6 +1185,8 @@ def sort_step(b: Built, case, root, part, step, edits):
         "impl_after": [[g, after[g]] for g in tree],
         "impl_universe": impl_universe,
         "pre_universe": pre_universe,
+        # hypothesis `hroot` of C12_ids_shared_raises / C12_ids_equivariant, on the real objects
+        "dup_root": any(sum(1 for x in pre_universe if x[0] == i) != 1 for i in before[b.gidmap[id(root)]]),
         "case": case if step == 0 else dict(case, at_step=step, edits=edits),
         "outcome": outcome,
         "after": {str(k): v for k, v in after.items()},
@@ -961,7 +1217,7 @@ class _Hang(BaseException):
 
 
 class time_limit:
-    """a real-code call that does not return within `sec` seconds (e.g. a corrupted node chain that is
+    """a real-code call that does not return within `sec` seconds of CPU time (e.g. a corrupted node chain that is
     iterated forever) is reported instead of hanging the check"""
 
     def __init__(self, sec):
@@ -973,14 +1229,15 @@ class time_limit:
     def __enter__(self):
         import signal
 
-        self.old = signal.signal(signal.SIGALRM, self._raise)
-        signal.setitimer(signal.ITIMER_REAL, self.sec)
+        # CPU time of this process (user + system), not wall-clock: a loaded machine must not look like a hang
+        self.old = signal.signal(signal.SIGPROF, self._raise)
+        signal.setitimer(signal.ITIMER_PROF, self.sec)
 
     def __exit__(self, *exc):
         import signal
 
-        signal.setitimer(signal.ITIMER_REAL, 0)
-        signal.signal(signal.SIGALRM, self.old)
+        signal.setitimer(signal.ITIMER_PROF, 0)
+        signal.signal(signal.SIGPROF, self.old)
         return False
 
 
@@ -992,11 +1249,11 @@ def _chunk(args):
     hangs = 0
     import time as _time
 
-    t_end = _time.time() + budget
+    t_end = _time.process_time() + budget  # CPU seconds of this worker
     for case in cases:
         if hangs >= 2:  # a non-terminating sort: reported twice already, do not spend the budget on more
             break
-        if _time.time() > t_end:  # pathological slowdown of the real code: keep the check bounded
+        if _time.process_time() > t_end:  # pathological slowdown of the real code: keep the check bounded
             part.count("cases_skipped_time_budget", 1)
             continue
         try:
@@ -1014,7 +1271,7 @@ def _chunk(args):
                     part.disagree(**d)
         except _Hang:
             hangs += 1
-            part.fail("sort:hang", "the real sort (or iterating its result) did not return within 150 s", {"case": case})
+            part.fail("sort:hang", "the real sort (or iterating its result) did not return within 150 s of CPU time", {"case": case})
             r = None
         except Exception as e:  # noqa: BLE001  harness problem on this case: report as disagreement-like info
             import traceback
@@ -1030,7 +1287,7 @@ def _chunk(args):
                     r2 = do_case(case2, p2)
             except _Hang:
                 r2 = None
-                part.fail("sort:hang", "the real sort of the re-allocated object graph did not return within 150 s", {"case": case2})
+                part.fail("sort:hang", "the real sort of the re-allocated object graph did not return within 150 s of CPU time", {"case": case2})
             except Exception as e:  # noqa: BLE001
                 import traceback
 
@@ -1055,11 +1312,12 @@ def check_cases(ctx: Ctx, cases: list) -> None:
     k = max(1, min(400, (len(cases) + 15) // 16))
     chunks = [(cases[i : i + k], ctx.pick(120, 600)) for i in range(0, len(cases), k)]
     results = pmap(_chunk, chunks)
-    recs, mrecs = [], []
+    recs, mrecs, srecs = [], [], []
     for part, out in results:
         ctx.merge(part)
-        recs += [r for r in out if r.get("kind") != "model"]
+        recs += [r for r in out if r.get("kind") is None]
         mrecs += [r for r in out if r.get("kind") == "model"]
+        srecs += [r for r in out if r.get("state") is not None]
     skipped = ctx.dist.get("cases_skipped_time_budget", 0)
     ctx.extra["cases_skipped_time_budget"] = ctx.extra.get("cases_skipped_time_budget", 0) + skipped
     ctx.extra["hang_retries"] = ctx.dist.get("hang_retries", 0)
@@ -1074,6 +1332,7 @@ def check_cases(ctx: Ctx, cases: list) -> None:
             if r["impl_raised"] and o.get("partial") == r["impl_after"]:
                 what += " — the pass is not atomic: graphs sorted before the failing one keep their new order (D201 regressed)"
             ctx.disagree(what, r["case"], o.get("after"), r["impl_after"])
+    check_state(ctx, srecs)
     reqs = [r["req"] for r in recs] + [r["ureq"] for r in recs] + [r["hreq"] for r in recs]
     outs = lean_batch_parallel(reqs)
     n = len(recs)
@@ -1087,11 +1346,56 @@ def check_cases(ctx: Ctx, cases: list) -> None:
             ctx.disagree("sort.sort: model != Graph.sort", r["case"], model, r["impl"])
         if o.get("after") != r["impl_after"]:
             ctx.disagree("sort.sort: node orders after the call differ (sortEffect)", r["case"], o.get("after"), r["impl_after"])
+        if o.get("ids") != r["impl"]:
+            # the transcription with identity-keyed dicts and a universe that may list a node twice (sortIds)
+            ctx.disagree("sort.sort: identity-keyed transcription (sortIds) != Graph.sort", r["case"], o.get("ids"), r["impl"])
+        if r.get("dup_root") is not None:
+            ctx.count("ids_hyp_root_nodes_listed_once=" + str(not r["dup_root"]))
         mu = uo.get("r", uo)
         if mu != r["impl_universe"] and not isinstance(r["impl_universe"], str):
             ctx.disagree("sort.universe: model != RecursiveGraphIterator", r["case"], mu, r["impl_universe"])
         if mu != r["pre_universe"]:
             ctx.disagree("sort.universe: model != harness pre-order", r["case"], mu, r["pre_universe"])
+
+
+def check_state(ctx: Ctx, srecs: list) -> None:
+    """whole histories (construction, edits, sorts: every public call on a node container, as traced on the real
+    objects) replayed on the stateful model `sortW` over C11's pointer-level containers: per sort the outcome, the
+    write trace (which container received which `extend`, in the order the code performed them) and the node
+    sequence of EVERY container of the world afterwards must coincide; the hypotheses of `C12_state_sort`
+    (containers satisfy C11's invariant, re-link order is an arrangement of the keys) are evaluated per sort"""
+    good = [r for r in srecs if not r["state"]["bad"]]
+    for r in srecs:
+        if r["state"]["bad"]:
+            ctx.count("state_history_not_replayable")
+            if len(ctx.notes) < 5:
+                ctx.notes.append("stateful history not replayed: " + r["state"]["bad"])
+    outs = lean_batch_parallel([r["state"]["req"] for r in good])
+    for r, o in zip(good, outs):
+        obs, sorts = r["state"]["obs"], o.get("sorts")
+        ctx.count("state_histories")
+        if sorts is None or len(sorts) != len(obs):
+            ctx.disagree("sort.state: number of sorts differs / driver error", r["case"], o, len(obs))
+            continue
+        for i, (m, x) in enumerate(zip(sorts, obs)):
+            ctx.count("state_sorts")
+            ctx.count("state_out=" + str(x["out"]))
+            ctx.count("state_hyp_containers_wf=" + str(m.get("inv")))
+            ctx.count("state_hyp_order_is_arrangement=" + str(m.get("order_ok")))
+            case = dict(r["case"], state_sort=i)
+            if m.get("out") != x["out"]:
+                ctx.disagree("sort.state: outcome differs (sortW)", case, m.get("out"), x["out"])
+            elif (m.get("trace") != x["trace"]) if m.get("order_ok") else (sorted(m.get("trace")) != sorted(x["trace"])):
+                what = "sort.state: write trace differs (which container is extended with what)"
+                if x["out"] != "ok" and x["trace"]:
+                    what += " - the real sort wrote to a container although it raised"
+                ctx.disagree(what, case, m.get("trace"), x["trace"])
+            elif not m.get("order_ok"):
+                ctx.disagree("sort.state: the graphs the real sort re-linked are not the keys of the model", case, m.get("keys"), [t[0] for t in x["trace"]])
+            if m.get("after") != x["after"]:
+                ctx.disagree("sort.state: node sequence of some container after the sort differs", case, m.get("after"), x["after"])
+            if not m.get("inv"):
+                ctx.disagree("sort.state: a container of the model violates C11's representation invariant", case, False, True)
 
 
 def exhaustive_small(ctx: Ctx) -> list:
@@ -1147,7 +1451,7 @@ def relink_cases(ctx: Ctx) -> None:
                 g.extend([nodes[i] for i in xs])
                 impl = [idx[id(nd)] for nd, _ in zip(g, range(4 * n + 4))]
         except _Hang:
-            ctx.fail("Graph.extend:hang", "re-linking existing nodes does not terminate", case)
+            ctx.fail("Graph.extend:hang", "re-linking existing nodes does not terminate (120 s of CPU time)", case)
             continue
         reqs.append({"m": "sort.relink", "cur": list(range(n)), "xs": xs})
         impls.append(impl)
@@ -1178,6 +1482,8 @@ def run(ctx: Ctx) -> None:
         cases.append(gen_case(ctx.rng, ctx.quick))
     for _ in range(ctx.pick(600, 6000)):
         cases.append(gen_model_case(ctx.rng))
+    for _ in range(ctx.pick(150, 1500)):
+        cases.append(gen_selfnest_case(ctx.rng))
     check_cases(ctx, cases)
     relink_cases(ctx)
 
